@@ -14,7 +14,15 @@ Task.clone, Task.__init__, Task._attach):
               new WBS in WBS.__init__, roots.setter stores into the sentinel's children, _attach stores the owner and
               recurses (the propagation through the setters is C11's claim)
   wbs-attrs   public attributes of the source WBS are copied (same loop shape) on the path shared by clone() and subtree()
-  once        one clone() per selected id, one __clone_tasks / WBS() / __clone per copy, one Task(...) per Task.clone
+  once        one clone() per selected id, one __clone_tasks / WBS() / __clone per copy, one Task(...) per Task.clone;
+              subtree() hands __clone a materialised list (_to_list / list() / [task]): __clone traverses its roots twice, so
+              the caller's object itself (or iter(..) / a generator over it) is REFUTED unless it is known to be a list/tuple
+              (isinstance guard) or __clone materialises it first
+  every-copy  (part of 'relations') a relation store that is skipped under a condition over the emptiness of the source
+              task's own relations is accepted only if the skipped cases are exactly "source relation empty" (judged over all
+              16 emptiness combinations, if/else stores jointly); `parent` / dependency stores skipped for a non-empty source
+              relation are REFUTED, a partially skipped `children` store is UNDECIDED (the children's own parent assignments
+              may rebuild it)
 
 Accepted idioms (all exercised by scratch refactorings, see rules/README.md): renamed / hoisted locals, one-line helpers
 (inlined by the Expander), `if c: continue`, swapped operands, `is not self`, merged external scan over
@@ -23,11 +31,18 @@ comprehension, the selection / the external registration / the attribute copy ex
 generator helper yielding the public attribute names, `if parent: c.parent = .. else: c.parent = None`, logging, and
 Task.clone written as `copy.copy(self)` followed by a reset of EVERY relation/owner field (a missing reset is REFUTED:
 the shallow copy shares that list with the source).
+Round 3: `if x.id not in map: map[x.id] = x` instead of setdefault (a plain store WITHOUT that guard stays REFUTED); the new
+roots / a relation list built by an accumulate loop (`acc = []; for ..: [if ..] acc.append(map[..])`, also inside the wiring
+loop) instead of a comprehension; __clone_tasks folded into __clone (inlined by hand, or moved to a module level helper that
+the normaliser splices back): one function then plays both roles ("merged" mode of clone_common); read-only aliases of the
+clone map; `if t.R: copy.R = [...]` guards and `else: copy.R = []` branches; `roots = _to_list(roots)` inside __clone;
+tuple-unpacked constructor arguments in Task.clone.
 
 Not decided: id collisions between an outside task and a member (the map is keyed by id); mutable attribute values
 shared by reference; overlapping root selections in subtree(); the numeric/behavioural outcome of the setters (C01,
 C11); a private field of Task that is not fed by a constructor parameter (reported as UNDECIDED, never passed); the
-hierarchy rebuilt through only one of parent/children (UNDECIDED); copy.deepcopy / __new__ based clones (UNDECIDED).
+hierarchy rebuilt through only one of parent/children (UNDECIDED); copy.deepcopy / __new__ based clones (UNDECIDED);
+__clone itself moved out of the class (anchor wbs.WBS.__clone missing -> ANALYSIS-ERROR, exit 2).
 The analysis itself lives in rules/clone_common.py (shared with C02 and C06, which call clone_provenance / c10._fields).
 """
 from __future__ import annotations
